@@ -294,7 +294,6 @@ type StoreWrite struct {
 	Pos   token.Pos
 }
 
-
 func isKVStoreIface(t types.Type) bool {
 	s := typeStr(t)
 	return strings.HasSuffix(s, "types.KVStore") || strings.HasSuffix(s, "prefix.Store") || strings.HasSuffix(s, "types.CommitKVStore") || strings.HasSuffix(s, "types.CacheKVStore")
@@ -398,7 +397,6 @@ type StoreRead struct {
 	Full string
 	Pos  token.Pos
 }
-
 
 func (p *Program) StoreReads() []*StoreRead {
 	if p.storeReadsCache != nil {
